@@ -3,6 +3,7 @@ import FitProps.C17MesgLemmas
 import FitProps.C17TypesLemmas
 import FitProps.C17StrLemmas
 import FitProps.C17UntypedLemmas
+import FitProps.C17NodupLemmas
 /-!
 # C17 — Generated profile code is exactly what Profile.xlsx prescribes
 
@@ -110,6 +111,17 @@ theorem C17_invalid_is_base_invalid :
       p.1.invalid = (if p.2.baseType = 10 ∨ p.2.baseType = 139 ∨ p.2.baseType = 140 ∨ p.2.baseType = 144 then 0
                      else 2 ^ (8 * btSize p.2.baseType) - 1) :=
   Lemmas.invalid_is_base_invalid
+
+/-- what the Boolean tests used above mean: `nodupNat l = true` (merge sort, then strictly increasing neighbours)
+implies that no number occurs twice in `l`; equal sorted forms (`sortedPairs`) imply that the lists are permutations
+of each other. General lemmas, for all lists. -/
+theorem C17_distinct_sound (l : List Nat) (h : nodupNat l = true) : l.Nodup := nodupNat_sound l h
+
+theorem C17_sorted_eq_perm (a b : List (Nat × Nat)) (h : sortedPairs a = sortedPairs b) :
+    (a.map encPair).Perm (b.map encPair) := by
+  unfold sortedPairs at h
+  have := perm_of_sorted_eq (a.map encPair) (b.map encPair) (by simpa using h)
+  exact this
 
 /-! ## the other generated packages: untyped constants, profile types, version -/
 
